@@ -112,13 +112,14 @@ def own_loopback(mid: str, other: str, rx: str, n_before: int, rx_is_own: bool) 
     try:
         t = _setup(mid, n_before, other)
         got = mid if rx_is_own else rx
-        known_before = (got == mid) or (n_before > 0 and got == other)
+        own = got == mid
+        known_before = n_before > 0 and got == other
         nt.message_reader = types.SimpleNamespace(read_received_message=lambda data, validate=True: _msg(got))
         t._quit_recv_event = _OneShot(1)
         t._read_queue = queue.Queue()
         t._read_queue.put((('10.0.0.1', 3702), b'<datagram/>'))
         t._run_q_read()
-        if rx_is_own:
+        if own:
             orc.check(t._wsd.handled == [], 'own_message_dispatched')
         elif known_before:
             orc.check(t._wsd.handled == [], 'known_message_dispatched_again')
